@@ -23,3 +23,20 @@ Qed.
 
 Lemma check_ln_case_sound y l : check_ln_case (y, l) = true -> Forall2 ln_ok (dyl y) (dyl l).
 Proof. apply ln_data_ok_sound. Qed.
+
+(* ---- round 4: the same certificate at the accuracy of a narrower float format ---- *)
+Definition ln_ok_w (k : positive) (y l : Q) : Prop :=
+  (0 < Q2R y)%R /\ (Rabs (ln (Q2R y) - Q2R l) <= Q2R (ln_tol_w k l))%R.
+
+Lemma ln_data_ok_w_sound k y l : ln_data_ok_w k y l = true -> Forall2 (ln_ok_w k) y l.
+Proof.
+  intros H. apply all2_spec in H. induction H as [|a b y l Hab _ IH]; constructor; [|exact IH].
+  apply ln_close_sound. exact Hab.
+Qed.
+
+Lemma check_ln_case_w_sound k y l : check_ln_case_w (k, (y, l)) = true -> Forall2 (ln_ok_w k) (dyl y) (dyl l).
+Proof. apply ln_data_ok_w_sound. Qed.
+
+(* the parametrised tolerance at k = 44 is the double-precision one *)
+Lemma ln_tol_w_44 l : ln_tol_w 44 l = ln_tol l.
+Proof. reflexivity. Qed.
